@@ -461,7 +461,18 @@ func genC07(r *hlib.Rng, n int) In {
 				}
 			}
 		}
-		if nb := func() int { n := 0; for _, e := range op.Events { if e.T == "bridge" { n++ } }; return n }(); nb > 0 && r.Intn(6) == 0 {
+		nb := func() int { n := 0; for _, e := range op.Events { if e.T == "bridge" { n++ } }; return n }()
+		if nb > 0 && r.Intn(4) == 0 {
+			// the node table cannot be read (nor written) during one attempt: right after a failed attempt (whose rollback
+			// invalidated the frontier cache) or a restart, the append-only tree has to rebuild its cache from exactly that table
+			if len(in.Ops) == 0 || in.Ops[len(in.Ops)-1].K == "block" && in.Ops[len(in.Ops)-1].Fault == nil && r.Bool() {
+				in.Ops = append(in.Ops, Op{K: "restart"})
+			}
+			fo := op
+			fo.Fault = &Fault{Table: "rht", Hide: true}
+			in.Ops = append(in.Ops, fo)
+		}
+		if nb > 0 && r.Intn(6) == 0 {
 			op.Fault = &Fault{Table: "bridge", K: r.Intn(nb), Read: true} // mid-transaction readers; the block itself succeeds
 		}
 		in.Ops = append(in.Ops, op)
